@@ -268,7 +268,10 @@ void C18Exec::prepare(C18Outcome &out) {
             OpSlot &s = slots[t][i];
             std::string why;
             AmbientReads rd0 = ambientReads();
-            if (!attributable(op, s.ref, why)) {
+            bool attrOk = false;
+            // the reference copy has thread-local storage of its own: it, too, runs on a thread without history
+            schedRunOnFreshThread([&]() { attrOk = attributable(op, s.ref, why); });
+            if (!attrOk) {
                 s.dropped = true;
                 s.dropWhy = why;
                 AmbientReads rd1 = ambientReads();
@@ -623,6 +626,34 @@ std::string bitmapHex(const std::vector<uint32_t> &ids, int n) {
     return s;
 }
 
+// Walk runs (one run in twelve): every task calls ONE cheap function 30-60 times on arguments that follow a walk.
+// This is the history a thread-local hint, memo or "last result" shortcut sees in real use; its result is compared
+// call by call with the same call made alone on a fresh thread.
+C18Case genWalkCase(uint64_t runSeed, const TierCfg &cfg) {
+    Rng rng(runSeed ^ 0x3a1c0ffeeULL);
+    Gen gen(rng);
+    C18Case cs;
+    cs.caseSeed = rng.u64();
+    cs.knobs = HeapKnobs::draw(rng);
+    cs.knobs.capacity = 0;
+    int T = (int)rng.range(2, std::min(4, cfg.maxThreads));
+    cs.sched.policy = (int)rng.below(POL_COUNT);
+    static const int64_t qs[] = {20, 200, 2000, 20000};
+    cs.sched.quantumMean = qs[rng.below(4)];
+    cs.sched.maxSwitches = 2000;
+    cs.sched.pctDepth = (int)rng.range(1, 4);
+    cs.sched.seed = rng.u64();
+    for (int t = 0; t < T; t++) {
+        std::vector<Op> prog;
+        int legs = (int)rng.range(1, 2);
+        for (int l = 0; l < legs; l++)
+            for (auto &o : gen.walk((int)rng.range(20, cfg.tier == "thorough" ? 80 : 45))) prog.push_back(o);
+        if (prog.empty()) prog.push_back(gen.anyOp(0));
+        cs.progs.push_back(prog);
+    }
+    return cs;
+}
+
 C18Case genCase(uint64_t runSeed, const TierCfg &cfg) {
     Rng rng(runSeed);
     Gen gen(rng);
@@ -760,8 +791,9 @@ C18Case genSweepCase(uint64_t runSeed, const TierCfg &cfg) {
 }
 
 JP runC18(uint64_t runSeed, int64_t runIdx, const TierCfg &cfg) {
-    bool sweep = (mix2(runSeed, 0x51ee9) % 3) == 0;
-    C18Case cs = sweep ? genSweepCase(runSeed, cfg) : genCase(runSeed, cfg);
+    uint64_t modeDraw = mix2(runSeed, 0x51ee9) % 12;
+    bool sweep = modeDraw < 4, walkRun = modeDraw == 4;
+    C18Case cs = sweep ? genSweepCase(runSeed, cfg) : walkRun ? genWalkCase(runSeed, cfg) : genCase(runSeed, cfg);
     C18Outcome out;
     guardCoverageReset();
     if (!sweep) {
@@ -816,7 +848,7 @@ JP runC18(uint64_t runSeed, int64_t runIdx, const TierCfg &cfg) {
     line->set("run", runIdx);
     line->set("seed", hex64(runSeed));
     line->set("fn", "program");
-    line->set("mode", sweep ? "preemption-sweep" : "random-schedule");
+    line->set("mode", sweep ? "preemption-sweep" : walkRun ? "walk" : "random-schedule");
     line->set("threads", (int64_t)cs.progs.size());
     line->set("policy", sweep ? "single-preemption-sweep" : POLICY_NAMES[cs.sched.policy]);
     line->set("quantum", sweep ? 0 : cs.sched.quantumMean);
